@@ -550,6 +550,65 @@ func bodies() []body {
 			return append(params(est.GetParameters()), liks...), nil
 		}})
 
+	// matrix HMM whose emissions are VECTOR mixture estimators cloned from one prototype
+	// (CloneVectorEstimator per state): clones must not share option slices or components
+	bs = append(bs, body{name: "matrix.Hmm[vector Mixture(ScalarId(Categorical) x2) emissions cloned from one prototype;seqs=2;steps=1]", nested: true,
+		sizes: func(T int) []int { return []int{2} },
+		run: func(n int, p tp.ThreadPool) ([]float64, error) {
+			mkc := func(th []float64) (VectorEstimator, error) {
+				e0, err := scalarEstimator.NewCategoricalEstimator(th)
+				if err != nil {
+					return nil, err
+				}
+				return vectorEstimator.NewScalarId(e0)
+			}
+			mkmix := func(a, b []float64) (VectorEstimator, error) {
+				e1, err := mkc(a)
+				if err != nil {
+					return nil, err
+				}
+				e2, err := mkc(b)
+				if err != nil {
+					return nil, err
+				}
+				return vectorEstimator.NewMixtureEstimator([]float64{0.5, 0.5}, []VectorEstimator{e1, e2}, 1e-8, 1)
+			}
+			m1, err := mkmix([]float64{0.25, 0.75}, []float64{0.5, 0.5})
+			if err != nil {
+				return nil, err
+			}
+			m2 := m1.CloneVectorEstimator()
+			if m3, err := mkmix([]float64{0.75, 0.25}, []float64{0.5, 0.5}); err != nil {
+				return nil, err
+			} else if err := m2.SetParameters(m3.GetParameters()); err != nil {
+				return nil, err
+			}
+			pi := NewDenseFloat64Vector([]float64{0.5, 0.5})
+			tr := NewDenseFloat64Matrix([]float64{0.75, 0.25, 0.5, 0.5}, 2, 2)
+			var liks []float64
+			hook := generic.BaumWelchHook{Value: func(h generic.BasicHmm, i int, l, eps float64) {
+				if !math.IsNaN(l) {
+					liks = append(liks, l)
+				}
+			}}
+			e, err := matrixEstimator.NewHmmEstimator(pi, tr, nil, nil, nil, []VectorEstimator{m1, m2}, 1e-8, 1, hook)
+			if err != nil {
+				return nil, err
+			}
+			xs := []ConstMatrix{
+				NewDenseFloat64Matrix([]float64{1, 1, 0, 1}, 4, 1),
+				NewDenseFloat64Matrix([]float64{0, 0, 1}, 3, 1),
+			}
+			if err := twice(p, func(q tp.ThreadPool) error { return e.EstimateOnData(xs, nil, q) }); err != nil {
+				return nil, err
+			}
+			est, err := e.GetEstimate()
+			if err != nil {
+				return nil, err
+			}
+			return append(params(est.GetParameters()), liks...), nil
+		}})
+
 	// HMM whose emissions are themselves mixtures: a Baum-Welch emission job calls the
 	// mixture estimator, which runs an EM step with nested pool use (depth 3)
 	bs = append(bs, body{name: "vector.Hmm[Mixture(Categorical x2) emissions;seqs=2;steps=2]", nested: true,
@@ -828,6 +887,76 @@ func bodies() []body {
 			}
 			return params(e.GetParameters()), nil
 		}})
+	// batch interface (Initialize / NewObservation from pool jobs / GetEstimate): the caller
+	// feeds one observation per job, the estimator accumulates per thread and merges in
+	// GetEstimate; log-weights of very different size per observation, so that the
+	// per-thread rescaling (exp(sum_r[k] - max)) matters
+	batchW := func(n int) []float64 {
+		base := []float64{0, -1, -3, -4, -3.5, -2, -6, 0, -5, -1.5, -2.5}
+		return base[:n]
+	}
+	scalarBatch := func(name string, mk func() (ScalarBatchEstimator, error), data func(int) []float64) body {
+		return body{name: "batch:" + name, sizes: stdSizes, run: func(n int, p tp.ThreadPool) ([]float64, error) {
+			e, err := mk()
+			if err != nil {
+				return nil, err
+			}
+			x, w := data(n), batchW(n)
+			if err := twice(p, func(q tp.ThreadPool) error {
+				if err := e.Initialize(q); err != nil {
+					return err
+				}
+				g := q.NewJobGroup()
+				q.AddRangeJob(0, n, g, func(i int, q tp.ThreadPool, erf func() error) error {
+					return e.NewObservation(ConstFloat64(x[i]), ConstFloat64(w[i]), q)
+				})
+				return q.Wait(g)
+			}); err != nil {
+				return nil, err
+			}
+			d, err := e.GetEstimate()
+			if err != nil {
+				return nil, err
+			}
+			return params(d.GetParameters()), nil
+		}}
+	}
+	bs = append(bs,
+		scalarBatch("scalar.Normal", func() (ScalarBatchEstimator, error) { return scalarEstimator.NewNormalEstimator(0, 1, 1e-8) }, dataReal),
+		scalarBatch("scalar.Exponential", func() (ScalarBatchEstimator, error) { return scalarEstimator.NewExponentialEstimator(1, 1e6) }, dataPos),
+		scalarBatch("scalar.Poisson", func() (ScalarBatchEstimator, error) { return scalarEstimator.NewPoissonEstimator(1) }, dataCount),
+		scalarBatch("scalar.Geometric", func() (ScalarBatchEstimator, error) { return scalarEstimator.NewGeometricEstimator(0.5) }, dataCount),
+		scalarBatch("scalar.Categorical", func() (ScalarBatchEstimator, error) {
+			return scalarEstimator.NewCategoricalEstimator([]float64{0.25, 0.5, 0.25})
+		}, dataCat),
+		scalarBatch("scalar.NegativeBinomial", func() (ScalarBatchEstimator, error) { return scalarEstimator.NewNegativeBinomialEstimator(2, 0.5) }, dataCount),
+	)
+	bs = append(bs, body{name: "batch:vector.Normal", sizes: func(T int) []int { return []int{T + 2, 2*T + 1} },
+		run: func(n int, p tp.ThreadPool) ([]float64, error) {
+			e, err := vectorEstimator.NewNormalEstimator([]float64{0, 0}, []float64{1, 0, 0, 1}, 1e-8)
+			if err != nil {
+				return nil, err
+			}
+			d, w := dataReal(11), batchW(n)
+			if err := twice(p, func(q tp.ThreadPool) error {
+				if err := e.Initialize(q); err != nil {
+					return err
+				}
+				g := q.NewJobGroup()
+				q.AddRangeJob(0, n, g, func(i int, q tp.ThreadPool, erf func() error) error {
+					return e.NewObservation(NewDenseFloat64Vector([]float64{d[i], d[(i+3)%11]}), ConstFloat64(w[i]), q)
+				})
+				return q.Wait(g)
+			}); err != nil {
+				return nil, err
+			}
+			est, err := e.GetEstimate()
+			if err != nil {
+				return nil, err
+			}
+			return params(est.GetParameters()), nil
+		}})
+
 	// the same on sparse data: the only configuration in which the estimator hands
 	// jobs to the pool (one SAGA worker per thread on a slice of the data, averaged)
 	bs = append(bs, body{name: "vector.LogisticRegression.sparse", nested: false,
